@@ -197,7 +197,8 @@ def weight_matrix(pe, ys, mode):
         corr = pe.covariance(ys, correlation=True)
     if mode == 'estimated':
         C = np.diag(dy) @ corr @ np.diag(dy)
-        return np.linalg.inv(C), {'correlated_fit': True}
+        # the flag as Python bool or as numpy bool (an element of a boolean array), alternating with the number of points
+        return np.linalg.inv(C), {'correlated_fit': True if len(ys) % 2 else np.bool_(True)}
     # user supplied: a different (shrunk) correlation matrix
     corr2 = 0.5 * corr + 0.5 * np.eye(len(ys))
     L = pe.obs.invert_corr_cov_cholesky(corr2, np.diag(1 / dy))
